@@ -380,6 +380,24 @@ func (codecStream) Execute(c Case) {
 			}
 			obs["cache"+enc.key] = st
 		}
+		// names whose extension is a case variant of a Spec extension: whatever file the writer chooses for them, the
+		// cache of that directory loads it (writer, scanner and reader agree on what a Spec file is)
+		if len(s.Devices) > 0 && obs["json"] == "equal" && obs["yaml"] == "equal" {
+			for _, nm := range []string{"u.JSON", "u.Yaml", "u.YAML", "u.json.JSON"} {
+				dir := filepath.Join(codecRoot, "casevariant")
+				_ = os.RemoveAll(dir)
+				cache, _ := cdi.NewCache(cdi.WithSpecDirs(dir), cdi.WithAutoRefresh(false))
+				if cache.WriteSpec(s, nm) != nil {
+					continue
+				}
+				_ = cache.Refresh()
+				if cache.GetDevice(s.Kind+"="+s.Devices[0].Name) == nil {
+					a, _ := obs["aux"].([]any)
+					obs["aux"] = append(a, fmt.Sprintf("a Spec written under the name %q is not loaded by a cache of that directory", nm))
+					break
+				}
+			}
+		}
 	case "sweep":
 		c["op"] = "string"
 		c["s"] = hx("plain")
